@@ -96,7 +96,14 @@ def _check_own(ctx):
         ctx.check(m is True, "check-must", kind,
                   "an existing %s file can be opened successfully without passing the header check" % kind,
                   where=where(fopen, nonzero), expected="every successful path of the non-empty-file arm calls %s" % fchk.name)
-        # the check is the first thing on that arm that can write: nothing write-class dominates it
+        if kind == "htx":
+            # a map that was created but not flushed yet must already be a non-empty file for the NEXT open (through another
+            # handle / key type): of the three files only .htx gets its length set at creation (OS-level set_len); without
+            # it all three are still 0 bytes on disk and a second open under a different key type is taken for "new"
+            ctx.check(io.must_from(fopen, zero, "OS_SETLEN") is True,
+                      "check-must", "htx:creation-sets-length",
+                      "creating the hash-table file does not always set its length on disk before returning: an unflushed new map is still an empty file "
+                      "and a second open with a different key type is not refused", where=where(fopen, zero))
         sites = [b for b, t in calls_to(prog, fopen, target_fn=fchk)]
         for b in sites:
             doms = [d for d in fopen.dominators().get(b, ()) if d != b]
